@@ -30,7 +30,9 @@ CLAIM = ("Necessary structural conditions of WHATWG conformance, each over all c
          "state; dispatcher tables are well formed; switching the tokenizer to RCDATA/RAWTEXT/script data is always paired "
          "with entering the text insertion mode; the formatting-element, scope-marker, form/head-pointer, foster-parenting "
          "bracket and scope-variant pairings of the standard hold at every site; fragment contexts choose the tokenizer "
-         "state the corresponding start-tag handler chooses; the element tables equal the standard's sets.")
+         "state the corresponding start-tag handler chooses; the element tables, the frameset-ok and reconstruct-formatting start-tag "
+         "lists, the 55 quirks prefixes and the quirks decision, the tree-construction dispatcher condition and the "
+         "integration-point predicates equal the standard's; stack searches run in the standard's direction.")
 NOT_DECIDED = ("the tree itself: adoption agency, reconstruction of formatting elements, foster parenting positions, "
                "insertion-mode transitions, quirks-mode effects.")
 MODULES = ["html5parser.py", "treebuilders/base.py", "constants.py", "_tokenizer.py", "_inputstream.py", "_utils.py"]
